@@ -39,6 +39,24 @@ def load_json(path, default):
         return default
 
 
+# Necessary conditions shared between properties: the statement of the property on the left cannot
+# hold unless the obligations stated for the properties on the right hold (C01 "incremental equals
+# from scratch" and C05 "nothing is re-run without cause" need the virtual view (C04), version
+# comparison (C06), cache identity (C07), comparison modes (C13), the JSON laws (C18); C01 also the
+# copy semantics (C11); C10 "the function receives the normalised path / JSON arguments, its return
+# value is normalised" needs C07, C11 and C18).  An obligation tagged for a supporting property is
+# also an obligation of the supported one.
+SUPPORTS = {
+    'C01': ['C04', 'C06', 'C07', 'C13', 'C18', 'C11'],
+    'C05': ['C04', 'C06', 'C07', 'C13', 'C18'],
+    'C10': ['C07', 'C11', 'C18'],
+}
+
+
+def relevant(pid, props):
+    return pid in props or any(s in props for s in SUPPORTS.get(pid, ()))
+
+
 def select_tasks(pid, all_funcs=False):
     RUN.setup()
     C = RUN._STATE['contracts']
@@ -46,7 +64,7 @@ def select_tasks(pid, all_funcs=False):
     prog = RUN._STATE['prog']
     exp_funcs = set(l.split('/')[0] for l in expected)
     funcs = [q for q, c in C.VERIFY.items() if c.verify and not c.trusted and (
-        all_funcs or pid in c.props
+        all_funcs or relevant(pid, c.props)
         or (prog.short(c.target) + ('#' + c.variant if c.variant else '')) in exp_funcs)]
     lemmas = []
 
@@ -60,7 +78,7 @@ def select_tasks(pid, all_funcs=False):
         for n in C.VERIFY[q].lemmas:
             need(n)
     for n, l in C.LEMMAS.items():
-        if pid in l.props:
+        if relevant(pid, l.props):
             need(n)
     return funcs, lemmas
 
